@@ -110,12 +110,12 @@ class KGFnWrapper:
                 # Use the current definition
                 if len(args) != current.arity:
                     raise RuntimeError(f"Klong function called with {len(args)} but expected {current.arity}")
-                fn_args = [np.asarray(x) if isinstance(x, list) else x for x in args]
+                fn_args = [self.klong._backend.kg_asarray(x) if isinstance(x, list) else x for x in args]
                 return self.klong.call(KGCall(current.a, [*fn_args], current.arity))
 
         if len(args) != self.fn.arity:
             raise RuntimeError(f"Klong function called with {len(args)} but expected {self.fn.arity}")
-        fn_args = [np.asarray(x) if isinstance(x, list) else x for x in args]
+        fn_args = [self.klong._backend.kg_asarray(x) if isinstance(x, list) else x for x in args]
         return self.klong.call(KGCall(self.fn.a, [*fn_args], self.fn.arity))
 
 
